@@ -631,5 +631,6 @@ def r10n(ctx: Ctx) -> list[Ob]:
         else:
             obs.append(viol("R10n", c.qualname, inst, "forward does not evaluate the stored target node", fwd.loc))
     if not obs:
-        raise AnalysisError("R10n: no parameter node holding another node (anchor vanished)")
+        # the holder may be hidden from this rule exactly because it is hidden from nn.Module (R10a reports that)
+        obs.append(unres("R10n", "cirkit.backend.torch.parameters", "deref-at-eval", "no parameter node stores another node in a recognisable attribute: no verdict", ""))
     return obs
